@@ -749,6 +749,21 @@ func (e *Enc) makeInterface(st *State, x *Val, xt types.Type, it types.Type) *Va
 		return &y
 	}
 	tag := fmt.Sprint(e.TI.tagOf(xt))
+	if x.Loc != nil && x.Clos == nil && x.Loc.Kind == 'F' && !x.Loc.Nullable {
+		// &s.f converted to an interface, f a struct of a type declared `immutable`: nobody writes through the pointer, so a
+		// freshly allocated object holding a copy of the field's current value stands for it
+		if pt, ok := xt.Underlying().(*types.Pointer); ok && e.DB.Immutable[typeStr(pt.Elem())] {
+			if _, isStruct := pt.Elem().Underlying().(*types.Struct); isStruct {
+				if _, opq := e.TI.opaqueSort(pt.Elem()); !opq {
+					r := e.allocRef(st, "iview")
+					cur := e.loadLoc(st, x.Loc)
+					dst := e.refLoc(r, pt.Elem())
+					e.storeLoc(st, dst, cur)
+					return &Val{T: it, L: []Sc{{tag, "Int"}, {r, "Int"}}}
+				}
+			}
+		}
+	}
 	if x.Clos != nil || x.Loc != nil {
 		// closure boxed into interface: opaque
 		e.unsupportedf("closure or interior pointer converted to interface")
